@@ -48,12 +48,14 @@ func (n *Noise) ws() string {
 	case 2:
 		return "\t"
 	case 3:
-		return " // c\n"
+		return []string{" // c\n", "//\n", " /// ** /* \n", "// \" unterminated\n", " // */ }\n", "//\r\n"}[n.Next(6)]
 	case 4:
 		return "\r\n"
 	case 5:
 		if n.Block {
-			return " /* x */ "
+			// stars and slashes next to the delimiters, comment openers inside comments, a string quote, a line-comment
+			// opener, several lines
+			return []string{" /* x */ ", "/**/", " /***/ ", "/** doc **/", "/* * / * */", "/*/ */", " /* // */ ", "/* \" */", "/* a\n * b\n **/", "/* /* */", " /*é*/ ", "/* when { false } */"}[n.Next(12)]
 		}
 		return "   "
 	case 6:
